@@ -18,7 +18,7 @@ var structKinds = []string{
 	"affine-w", "identity-multiple", "projective", "projective-partial", "perspective",
 	"block-2+2", "block-3+1", "block-1+3", "diagonal", "perm-scale",
 	"upper-triangular", "lower-triangular", "sparse-pattern", "symmetric", "orthogonal-quat",
-	"matfromdirs", "unit-row", "unit-col", "affine-frame",
+	"matfromdirs", "unit-row", "unit-col", "affine-frame", "signed-zeros",
 }
 var compositeKinds = []string{"sum", "product", "scaled"}
 
@@ -139,6 +139,18 @@ func genStructured(r *rand.Rand) (m m4, kind string) {
 			for j := 0; j < 4; j++ {
 				if p[i] == j || r.Intn(10) < 3 {
 					m[i][j] = rnd(r)
+				}
+			}
+		}
+	case "signed-zeros": // a pattern containing a permutation; the other entries are +0, -0 or a value
+		p := r.Perm(4)
+		for i := 0; i < 4; i++ {
+			for j := 0; j < 4; j++ {
+				switch k := r.Intn(10); {
+				case p[i] == j || k < 3:
+					m[i][j] = rnd(r)
+				case k < 7:
+					m[i][j] = negZero
 				}
 			}
 		}
